@@ -25,6 +25,7 @@ type Parent struct {
 	WorkDir   string
 	Workers   int
 	HangCPU   float64 // CPU seconds without WAL progress before a worker is dumped
+	MaxRSSMiB int64   // resident memory of one worker above which it is dumped and stopped
 	Start     time.Time
 	ExtraCov  map[string]any // property specific additions to coverage
 	Assume    []string
@@ -49,6 +50,20 @@ type Replayer interface {
 
 // CPUSeconds returns user+system CPU time of a process (-1 if unknown).
 func CPUSeconds(pid int) float64 { return cpuSeconds(pid) }
+
+// rssMiB returns the resident set size of a process in MiB (-1 if unknown).
+func rssMiB(pid int) int64 {
+	b, err := os.ReadFile(fmt.Sprintf("/proc/%d/statm", pid))
+	if err != nil {
+		return -1
+	}
+	f := strings.Fields(string(b))
+	if len(f) < 2 {
+		return -1
+	}
+	pages, _ := strconv.ParseInt(f[1], 10, 64)
+	return pages * int64(os.Getpagesize()) >> 20
+}
 
 func cpuSeconds(pid int) float64 {
 	b, err := os.ReadFile(fmt.Sprintf("/proc/%d/stat", pid))
@@ -80,6 +95,7 @@ type workerRun struct {
 	cpuAt   float64
 	done    chan error
 	hung    bool
+	bloated bool
 	skip    []int
 	crashes int
 }
@@ -280,6 +296,10 @@ func (p *Parent) RunWorkers() *Result {
 					if strings.Contains(stderrHead+stderrTail, "github.com/boombuler/barcode") {
 						v.Key = "hang:" + unit.Fn
 						v.Msg = fmt.Sprintf("no progress after %.0f CPU-seconds inside the library", p.HangCPU)
+						if w.bloated {
+							v.Key = "memory-blowup:" + unit.Fn
+							v.Msg = fmt.Sprintf("worker grew beyond %d MiB resident memory inside one unit", p.MaxRSSMiB)
+						}
 						v.Detail = stderrHead
 					} else {
 						merged.Inconclusive = append(merged.Inconclusive, fmt.Sprintf("worker %d stalled outside the library on unit %d", w.shard, idx))
@@ -321,7 +341,7 @@ func (p *Parent) RunWorkers() *Result {
 					merged.ViolCounts[v.Key]++
 				}
 				w.crashes++
-				w.hung = false
+				w.hung, w.bloated = false, false
 				if w.crashes >= 6 {
 					merged.Inconclusive = append(merged.Inconclusive, fmt.Sprintf("worker %d: giving up after %d crashes", w.shard, w.crashes))
 					finished[i] = true
@@ -347,6 +367,11 @@ func (p *Parent) RunWorkers() *Result {
 					w.cpuAt = cpu
 				} else if cpu >= 0 && cpu-w.cpuAt > p.HangCPU && !w.hung {
 					w.hung = true
+					w.cmd.Process.Signal(syscall.SIGQUIT)
+				}
+				if rss := rssMiB(w.cmd.Process.Pid); rss > p.MaxRSSMiB && p.MaxRSSMiB > 0 && !w.hung {
+					// unbounded memory growth inside one unit: dump and stop before the box suffers
+					w.hung, w.bloated = true, true
 					w.cmd.Process.Signal(syscall.SIGQUIT)
 				}
 				if time.Since(p.Start) > wallLimit {
